@@ -185,8 +185,10 @@ def Scr.dch (s : Scr) (n : Nat) : Scr := s.setRow s.cy ((s.row s.cy).dch s.cx n 
 
 def Scr.inRegion (s : Scr) : Bool := s.top ≤ s.cy && s.cy ≤ s.bot
 
-/-- DECSTBM with 0-based, already defaulted arguments; ignored when inverted -/
+/-- DECSTBM with 0-based, already defaulted arguments; a request whose top lies below its bottom
+    is ignored (compared as given, before clamping: also when both lie beyond the screen) -/
 def Scr.setMargins (s : Scr) (t b : Int) : Scr :=
+  if t > b then s else
   let t' := clampNat t (s.h - 1)
   let b' := clampNat b (s.h - 1)
   if t' > b' then s else { s with top := t', bot := b' }
